@@ -22,6 +22,8 @@ MAYPANIC_API = [
     (r"^<pnet::packet::icmpv6::ndp::(Mutable)?NdpOptionPacket<'\w+> as pnet::packet::(Packet|PacketSize|MutablePacket)>::", 'pnet-ndp-options'),
     (r"^<pnet::packet::icmpv6::ndp::NdpOptionIterable<'\w+> as std::iter::Iterator>::", 'pnet-ndp-options'),
     (r"^<pnet::packet::icmpv6::ndp::(Mutable)?(NeighborSolicit|NeighborAdvert|RouterSolicit|RouterAdvert|Redirect|NdpOption)Packet<'\w+> as std::fmt::Debug>::fmt$", 'pnet-ndp-options'),
+    # byte offsets into UTF-8 text: these panic when the offset is not a character boundary (or out of range)
+    (r'^std::string::String::(truncate|insert|insert_str|remove|split_off|drain|replace_range|pop_at)$|^core::str::<impl str>::(split_at|split_at_mut)$', 'string-offset'),
     (r'^std::string::String::from_utf8_lossy$', None),
     (r'^core::num::<impl \w+>::(pow|abs|div_euclid|rem_euclid)$', 'arith-api'),
     (r'^core::char::methods::<impl char>::from_digit$', 'from_digit'),
